@@ -14,6 +14,8 @@ Definition pinned_init_wrapper : list string := [
   "    raise KeyError('...'.format(func, param_names, args, kwargs)) from err";
   "in_progress = _IN_PROGRESS.get()";
   "id_instance = id(instance)";
+  "if id_instance in in_progress:";
+  "    return func(*args, **kwargs)";
   "_IN_PROGRESS.set(in_progress | {id_instance})";
   "try:";
   "    result = func(*args, **kwargs)";
